@@ -33,6 +33,10 @@ CASES = [
     # a missing numerator over a divisor that is exactly 0 in that row (zz is 0 in row 1 only): NaN, as for every other row
     ("y ~ I(x / zz) + w", {"y", "x", "zz", "w"}, {"x": ["I(x / zz)"], "w": ["w"]}),
     ("y ~ np.log(x / zz + 10)", {"y", "x", "zz"}, {"x": ["np.log(x / zz + 10)"]}),
+    # columns of the frame that are named like a call of the formula, or like the prefix of a dotted column name, are not used by it
+    ("y ~ np.log(z) + w", {"y", "z", "w"}, {"z": ["np.log(z)"], "w": ["w"]}),
+    ("y ~ np.log(x.1) + w", {"y", "x.1", "w"}, {"x.1": ["np.log(x.1)"], "w": ["w"]}),
+    ("y ~ np.exp(w) + (np.log(z)|g)", {"y", "w", "z", "g"}, {"w": ["np.exp(w)"]}),
     ("y ~ x + z - z", {"y", "x"}, {"x": ["x"]}),
     ("y ~ x*z - z - x:z", {"y", "x"}, {"x": ["x"]}),
     ("y ~ x + (z|g) - (z|g) - (1|g)", {"y", "x"}, {"x": ["x"]}),
@@ -63,6 +67,9 @@ def frame(seed, n=20):
     d = pd.DataFrame({"y": rng.normal(size=n), "x": rng.normal(size=n) + 3, "z": rng.uniform(1, 9, size=n), "w": rng.normal(size=n),
                       "w w": rng.normal(size=n), "f": _cover(rng, ["a", "b", "c"], n), "g": _cover(rng, ["u", "v", "w"], n),
                       "h": _cover(rng, ["p", "q"], n), "unused": rng.normal(size=n), "unused_s": _cover(rng, ["k", "l"], n)})
+    d["np.log(z)"] = np.log(d["z"])       # a precomputed column labelled like a call; 'x.1' as read_csv names a duplicated header
+    d["np.exp(w)"] = np.exp(d["w"])
+    d["x.1"] = rng.uniform(1, 5, size=n)
     d["zz"] = rng.uniform(1, 3, size=n)
     d.loc[1, "zz"] = 0.0              # (row 1 is the row the single-column patterns make incomplete)
     return d
